@@ -14,7 +14,7 @@ from harness import joingen as jg, lib, semgen as sg
 from harness.props import c02
 
 warnings.filterwarnings("ignore")
-STRS = ["a", "b", "c", "it's", "ma.s0 = 'x'", "select", "a%"]
+STRS = ["a", "b", "c", "it's", "ma.s0 = 'x'", "select", "a%", "a  b", "a b", " a"]   # incl. runs of blanks: literal content is data, not layout
 
 
 def coq_like(e):
@@ -35,7 +35,7 @@ def gen_filter(rnd):
     if r < 0.66:
         return ("between", c1, sg.lit(rnd.choice([0, 1])), sg.lit(rnd.choice([1, 2])))
     if r < 0.74:
-        return ("like", s0, rnd.choice(["a%", "%s", "_", "%'%", "%.%", "b"]))
+        return ("like", s0, rnd.choice(["a%", "%s", "_", "%'%", "%.%", "b", "%  %", "a _"]))
     if r < 0.84:
         return rnd.choice([("isnull", s0), ("not", ("isnull", c1)), ("not", ("isnull", s0))])
     if r < 0.92:
